@@ -158,7 +158,10 @@ class Sim:
     def pick(self, r, i):
         mine = [m for (rr, m) in self.view if rr == r][::-1]
         if i < len(mine):
-            self.view.remove((r, mine[i])); return mine[i]
+            self.view.remove((r, mine[i]))
+            # once answered, a later identical datagram is not a retransmission of that exchange any more
+            self.seen = {t for t in self.seen if not (t[0] == r and t[2] == mine[i] and t[1] in (0, 1))}
+            return mine[i]
         return BOGUS_MID + i
 
     def step(self, ev):
@@ -252,6 +255,8 @@ def g_event(ev):
     if k == "trig":
         burst = glist(["(%s, %s)" % ("TRender" if kind == "render" else "TResp %s %s" % (gz(code), gz(kk)), gbool(last)) for (kind, code, last, kk) in ev[2]])
         return "SEv (ETrigger %s %s)" % (glist([gnat(p) for p in ev[1]]), burst)
+    if k == "shared":     # updated_state(Message): since e47f5b3 every observer is triggered with its own copy
+        return "SEv (ETrigger %s [(TResp %s %s, false)])" % (glist([gnat(p) for p in ev[1]]), gz(ev[2]), gz(ev[3]))
     if k == "done": return "SEv (ERenderDone %s %s)" % (gz(ev[1]), gz(ev[2]))
     if k == "mode": return "SEv (ESetMode %s)" % ["MOk", "MRet500", "MRaise404", "MRaise500"][ev[1]]
     if k == "gate": return "SEv (ESetGate %s)" % gbool(ev[1])
@@ -267,7 +272,7 @@ def canon_impl(r):
             "backlog": sorted([b[0], m] for b in f["backlog"] for m in b[1:]), "piggy": f["piggy"], "version": f["version"], "now": r["now"],
             "loop_exceptions": f["loop_exceptions"]}
 
-def canon_model(p):
+def canon_model(p, shared=False):
     outs, summ = p
     observers, regs, gated, exch, backlog, piggy, version, now = summ
     steps = []
@@ -276,6 +281,7 @@ def canon_model(p):
         for x in o:
             x = list(x)
             if x[0] == 0 and x[7] == 0: x[9] = -1        # the registration of an error response is not visible on the wire
+            if shared and x[0] == 0 and x[7] == 2: x[9] = -1   # nor is it in the payload of a response object given to updated_state()
             st.append(x)
         steps.append(st)
     return {"steps": steps, "resolved": [res for (_, res) in outs],
@@ -377,7 +383,7 @@ def fault_scenarios(rng, n, exhaustive=False):
     return out[:n]
 
 def gen_shared(rng):
-    """resource.updated_state(response) with one Message object shared by all observers (oracle-only stream)"""
+    """resource.updated_state(response) with one Message object for all observers (F17, fixed by e47f5b3: each observer gets a copy)"""
     nobs = rng.choice([1, 2, 2, 3]); ev = []; keys = []
     for i in range(nobs):
         ev.append(["req", i + 1, rng.random() < 0.7, i + 1, 1, 0]); keys.append((i + 1, 1))
@@ -507,13 +513,20 @@ def check_trace(stream, inp, res):
                 if gid < 0 and pk == 2 and (r, tok) in live_by_key: gid = live_by_key[(r, tok)]      # shared explicit response
                 if gid < 0:
                     if code >= 128 and pk == 0 and k not in ("req", "raw"):                          # bare 5.00 outside a request: unsuccessful notification without registration number
-                        # (a piggy-backed ACK answers the request of this very event, it is never a queued notification)
-                        waiting = [g for g in pending_final.get((r, tok), []) if not regs[g]["final_sent"]] if t != 2 else []
-                        if waiting and (r, tok) in live_by_key: pass                                 # a bare 5.00 that could belong to either: no conclusion
-                        elif waiting:                                                                # the queued final message of a registration the server already ended
-                            regs[waiting[0]]["final_sent"] = True
-                        elif (r, tok) in live_by_key:
-                            g = live_by_key[(r, tok)]; must_end.setdefault(g, "final-notification"); regs[g]["final_sent"] = True
+                        if k in ("ack", "rst"):
+                            # NSTART = 1: whatever is transmitted for the first time while an ACK/RST is processed left the backlog;
+                            # it is the queued final message of a registration the server already ended (oldest first)
+                            waiting = [g for g in pending_final.get((r, tok), []) if not regs[g]["final_sent"]]
+                            if waiting: regs[waiting[0]]["final_sent"] = True
+                        else:
+                            # sent directly by the render task that just failed: the live registration on this token, or the one
+                            # whose cancellation callback ran a moment ago (a raising render cancels first, answers second)
+                            g = live_by_key.get((r, tok))
+                            if g is None:
+                                cand = [x for x in ended_here if (regs[x]["r"], regs[x]["tok"]) == (r, tok) and not regs[x]["final_sent"]]
+                                g = cand[-1] if cand else None
+                            if g is not None:
+                                must_end.setdefault(g, "final-notification"); regs[g]["final_sent"] = True
                     continue
                 if gid not in regs: return ("C08:harness-gid", "datagram for unknown registration %d" % gid)
                 rg = regs[gid]
@@ -578,17 +591,26 @@ class C08(fw.Property):
             "unsuccessful / last responses, ACK or RST of the newest or an older message, silence (time steps around 0.1 s, 2 s, 62 s, 247 s), "
             "re-register / deregister / plain request / duplicate on the same token, slow renders released later, failing renders, transport "
             "error, shutdown) plus a friendly exchange with one fault inserted at every position, through the real stack vs Model/C08.run_script; "
-            "real_set = same with the unmodified set of observers (oracle only); shared_response = updated_state(response) with one shared "
-            "Message (oracle only); adversarial = scripts with junk / unsolicited datagrams injected (oracle only). Non-trivial = at least one "
+            "real_set = same with the unmodified set of observers (oracle only); shared_response = resource.updated_state(response) with one "
+            "Message object for several observers (modelled: every observer gets its own copy, as since fix e47f5b3); adversarial = scripts with junk / unsolicited datagrams injected (oracle only). Non-trivial = at least one "
             "accepted registration, one notification with Observe > 0 and one ended registration; distinct by full input.")
     trusted_base = ["hand-written Model/C08.v (validated by the script stream on every run: complete per-event traces of datagrams, callbacks, renders and the final bookkeeping state)",
                     "harness: virtual-time loop (ideal timers, FIFO ready queue), fake transport, test resource (ordered stand-in for the observer set, gated renders), wire codec of the harness",
                     "random.uniform patched to ACK_TIMEOUT (retransmission times 2,4,8,16,32 s)"]
     assumptions = ["observers are triggered in an order chosen by the script (the real set's order is one of them); the real_set stream runs the unmodified set under the oracle only",
-                   "every observer gets its own Message for explicit responses; resource.updated_state(response) with a shared Message is outside the model (finding F17, shared_response stream)",
+                   "every observer gets its own Message for explicit responses (resource.updated_state(response) copies since fix e47f5b3; the shared_response stream compares exactly that)",
                    "task garbage collection is not modelled"]
-    level_text = ""
-    level_note = ""
+    level_text = ("Theorems (closed under the global context) over a hand-written executable model of the observe server path, for ALL event histories: "
+                  "live registrations = the resource's observers, add_observation once per registration, cancellation callback exactly once per ended "
+                  "registration and never for a live one, every update_observation_count reports the true count (count restored); once ended nothing is "
+                  "produced for a registration any more and only datagrams already queued in the backlog can still leave (F16 witness for the unconditional "
+                  "wire statement); each listed cause ends the registration (same-token request, Reset of a confirmable notification, unsuccessful / last "
+                  "notification, raising render, time-out, transport error, shutdown), with the Reset-of-NON case refuted by a witness (F15). The model is "
+                  "tied to the code by a differential run of the real stack on scripted observer behaviour with complete traces compared.")
+    level_note = ("PARTIAL: rising Observe numbers / token and 'latest state sent' are proved for the notification loop's code (one pass, the lossy trigger "
+                  "future), not as invariants over histories on the wire; over histories they are checked by the oracle and the trace correspondence only. "
+                  "Time-out is stated for the firing of the last retransmission timer, not derived from EAdvance. Not modelled: task garbage collection, "
+                  "No-Response, block-wise, multicast; observers are triggered in a script-chosen order. Trusted: the model's correspondence (sampled), virtual loop, harness codec.")
 
     # ------------------------------------------------------------------ generators (every choice from rng)
     def gen_cases(self, tier, rng, n):
@@ -610,10 +632,10 @@ class C08(fw.Property):
     def impl(self, stream, inp):
         return canon_impl(run_script(inp))
     def model(self, stream, inp):
-        if stream != "script": return None
+        if stream not in ("script", "shared_response"): return None
         return "run_script %s %s" % (gz(inp.get("mid0", 0)), glist([g_event(e) for e in inp["events"]]))
     def decode(self, stream, inp, parsed):
-        return canon_model(fw.plain(parsed))
+        return canon_model(fw.plain(parsed), shared=(stream == "shared_response"))
     def oracle(self, stream, inp, res):
         if "harness_exception" in res: return ("C08:crash:" + res["where"], "implementation raised %s: %s" % (res["harness_exception"], res.get("text")))
         return check_trace(stream, inp, res)
